@@ -5,7 +5,7 @@
 //! and undeclared fixture scanning is in `undeclared.rs`.
 
 use super::decorators;
-use super::types::{FixtureDefinition, FixtureScope, FixtureUsage};
+use super::types::{FixtureDefinition, FixtureUsage};
 use super::FixtureDatabase;
 use rustpython_parser::ast::{ArgWithDefault, Arguments, Expr, Stmt};
 use rustpython_parser::{parse, Mode};
@@ -733,7 +733,11 @@ impl FixtureDatabase {
                 if decorators::is_fixture_decorator(&inner_call.func) {
                     for target in &assign.targets {
                         if let Expr::Name(name) = target {
-                            let fixture_name = name.id.as_str();
+                            // `pytest.fixture(...)` is called like a decorator: its arguments
+                            // mean what they mean above a `def`
+                            let decorator = &*outer_call.func;
+                            let alias = decorators::extract_fixture_name_from_decorator(decorator);
+                            let fixture_name = alias.as_deref().unwrap_or(name.id.as_str());
                             let line = self
                                 .get_line_from_offset(assign.range.start().to_usize(), line_index);
 
@@ -766,9 +770,10 @@ impl FixtureDatabase {
                                 is_third_party,
                                 is_plugin,
                                 dependencies: Vec::new(), // Assignment-style fixtures don't have explicit dependencies
-                                scope: FixtureScope::default(), // Assignment-style fixtures default to function scope
+                                scope: decorators::extract_fixture_scope(decorator)
+                                    .unwrap_or_default(),
                                 yield_line: None, // Assignment-style fixtures don't have yield statements
-                                autouse: false,   // Assignment-style fixtures are never autouse
+                                autouse: decorators::extract_fixture_autouse(decorator),
                             };
 
                             self.record_fixture_definition(definition);
